@@ -136,5 +136,6 @@ let error_text (e : perror) : string =
 let parsed_text (b : Interning.builtins) (r : parsed bres) : string =
   match r with
   | BPanic -> "PANIC"
+  | BFull -> "PANIC"      (* an interning table is full: the crate unwinds too (C08) *)
   | BErr e -> error_text e
   | BOk p -> "OK tree=" ^ tree_text p.pr_tabs p.pr_tree ^ " | spans=" ^ spans_text p.pr_tabs p.pr_spans p.pr_tree ^ " | ids=" ^ ids_text b p
